@@ -74,7 +74,7 @@ def _c12(v, b, tier):
 
 
 def _c19(v, b, tier):
-    thr_checks.check_c19(v, b.t1_summary, 40 * SIZES[tier], 6 * SIZES[tier])
+    thr_checks.check_c19(v, b.t1_summary, 70 * SIZES[tier], 6 * SIZES[tier])
 
 
 def _c14(v, b, tier):
